@@ -226,18 +226,25 @@ func (r *runner) runChain(ch *chain) {
 	}
 }
 
-// fresh runs one row in a scratch directory of its own and reports the outcome.
-func fresh(tag string, row projgen.C17Row, seed int64, nfiles int, build bool) projgen.C17Outcome {
+// fresh runs one row in a scratch directory of its own - `times` Generate steps with unchanged input - and
+// reports the outcome of the first step that does not end as prescribed (else of the last).
+func fresh(tag string, row projgen.C17Row, seed int64, nfiles int, build bool, times int) projgen.C17Outcome {
 	name := "c17_dd_" + tag
 	root := removeGen(name)
 	p := projgen.C17Render(root, projgen.ImportBase(name), row, seed, nfiles)
 	if _, err := projgen.C17CheckOccurs(p); err != nil {
 		return projgen.C17Outcome{Kind: "infra", Detail: err.Error()}
 	}
-	if err := p.Write(); err != nil {
-		return projgen.C17Outcome{Kind: "infra", Detail: err.Error()}
+	var out projgen.C17Outcome
+	for i := 0; i < times; i++ {
+		if err := p.Write(); err != nil {
+			return projgen.C17Outcome{Kind: "infra", Detail: err.Error()}
+		}
+		out = p.Generate(build)
+		if !out.OK() {
+			break
+		}
 	}
-	out := p.Generate(build)
 	if os.Getenv("C17_KEEP") == "" {
 		_ = os.RemoveAll(root)
 	}
@@ -247,14 +254,14 @@ func fresh(tag string, row projgen.C17Row, seed int64, nfiles int, build bool) p
 // minimise finds a minimal set of non-default factors under which the row still
 // fails with the same kind of failure (delta debugging: factors are switched
 // back to their defaults).  budget bounds the number of generator runs.
-func minimise(id string, row projgen.C17Row, seed int64, nfiles int, kind string, buildRun bool, budget int) ([]string, projgen.C17Row, bool) {
+func minimise(id string, row projgen.C17Row, seed int64, nfiles int, kind string, buildRun bool, budget, times int) ([]string, projgen.C17Row, bool) {
 	runs := 0
 	var mu sync.Mutex
 	fails := func(tag string, r projgen.C17Row) bool {
 		mu.Lock()
 		runs++
 		mu.Unlock()
-		o := fresh(id+"_"+tag, r, seed, nfiles, buildRun)
+		o := fresh(id+"_"+tag, r, seed, nfiles, buildRun, times)
 		return !o.Infra() && o.Kind == kind
 	}
 	with := func(r projgen.C17Row, off []string) projgen.C17Row {
@@ -366,20 +373,35 @@ func (r *runner) report(fs []*failure) {
 		id := fmt.Sprintf("%d", gi)
 		if f.step.Step > 1 && f.quirk == "" {
 			// does the row fail on a clean directory as well?
-			o := fresh(id+"_f", f.step.Row, seed, f.ch.NFiles, f.out.BuildRun)
+			o := fresh(id+"_f", f.step.Row, seed, f.ch.NFiles, f.out.BuildRun, 1)
 			if o.OK() {
 				evolutionOnly = true
 			}
 		}
+		// a step whose input equals the previous step's (action Again of the specification): the row
+		// generates in a clean directory and fails when generated again on top of its own output
+		regenerate := evolutionOnly && len(changed(f.ch.Steps[f.step.Step-2].Row, f.step.Row)) == 0
 		switch {
 		case f.quirk != "":
 			label = "quirk:" + f.quirk
 			scen["note"] = "probe row of a construct that is pinned to FALSE in the cover because it triggers a known defect; everything else in the row is at its default"
+		case regenerate:
+			label = "regenerate"
+			scen["note"] = fmt.Sprintf("the row generates and compiles in a clean directory; Generate step %d in the same directory, with NOTHING changed, does not", f.step.Step)
+			if gi < maxGroups {
+				min, mrow, complete := minimise(id, f.step.Row, seed, f.ch.NFiles, f.out.Kind, f.out.BuildRun, 40, f.step.Step)
+				label = "regenerate(" + mrow.Label(min) + ")"
+				if !complete {
+					label += "(not minimal)"
+				}
+				scen["minimal_factors"] = min
+				scen["minimal_row"] = mrow
+			}
 		case evolutionOnly:
 			label = "evolution(" + f.step.Row.Label(changed(f.ch.Steps[f.step.Step-2].Row, f.step.Row)) + ")"
 			scen["note"] = "the row generates and compiles in a clean directory; it fails only on top of the previous step's output"
 		case gi < maxGroups:
-			min, mrow, complete := minimise(id, f.step.Row, seed, f.ch.NFiles, f.out.Kind, f.out.BuildRun, 60)
+			min, mrow, complete := minimise(id, f.step.Row, seed, f.ch.NFiles, f.out.Kind, f.out.BuildRun, 60, 1)
 			label = mrow.Label(min)
 			if label == "" {
 				label = "defaults"
@@ -477,7 +499,11 @@ func main() {
 			vlib.Infra("C17_ROW: %v", err)
 		}
 		os.Setenv("C17_KEEP", "1")
-		o := fresh("row", row, vlib.Seed(), 2, true)
+		times := 1
+		if t, err := strconv.Atoi(os.Getenv("C17_TIMES")); err == nil && t > 1 {
+			times = t // C17_TIMES=n: n Generate steps with unchanged input in the same directory
+		}
+		o := fresh("row", row, vlib.Seed(), 2, true, times)
 		b, _ := json.MarshalIndent(o, "", " ")
 		fmt.Printf("%s\n%s\n", b, o.Detail)
 		os.Exit(0)
